@@ -822,6 +822,11 @@ static void init()
 	reg<booster::intrusive_ptr<ibox<string> > >(); reg<list<booster::intrusive_ptr<ibox<vector<u2> > > > >(); regs<rec2<booster::intrusive_ptr<ibox<u4> >,booster::hold_ptr<string> > >();
 }
 
+struct c19_grouping : std::numpunct<char> {
+	char do_thousands_sep() const override { return ','; }
+	std::string do_grouping() const override { return "\3"; }
+};
+
 static std::string run(std::vector<std::string> const &w)
 {
 	if(w.empty()) return "bad-op";
@@ -881,6 +886,15 @@ static std::string run(std::vector<std::string> const &w)
 	Tok t={w,2};
 	std::string o2=w[0];
 	prefill=false;
+	if(o2.size()>1 && o2[o2.size()-1]=='~') {
+		// the same line with std::locale::global() set to a locale that groups digits ("1,234,567"): what is
+		// written to / read from an archive must not depend on it (seed C19-12)
+		std::vector<std::string> w2(w);
+		w2[0]=o2.substr(0,o2.size()-1);
+		struct restore { ~restore() { std::locale::global(std::locale::classic()); } } r;
+		std::locale::global(std::locale(std::locale::classic(),new c19_grouping));
+		return run(w2);
+	}
 	if(o2.size()>1 && o2[o2.size()-1]=='+') { prefill=true; o2=o2.substr(0,o2.size()-1); }
 	if(o2=="save") return o.save(t);
 	if(o2=="rt") return o.rt(t);
